@@ -34,7 +34,11 @@ def r02a(ctx, trimmed_lists):
     for f in sorted(m.functions.values(), key=lambda f: f.qual):
         if ".<locals>." in f.qual:
             continue
-        for c in walk_no_nested(f.node):
+        fnode = f.node
+        if any(isinstance(c, ast.Call) and call_name(c) == "Match" for c in walk_no_nested(f.node)):
+            from ..astx import subst_paths
+            fnode = subst_paths(f.node)        # `xs = self._children` is read as the path it names
+        for c in walk_no_nested(fnode):
             if not (isinstance(c, ast.Call) and call_name(c) == "Match" and len(c.args) >= 3
                     and isinstance(c.args[2], ast.Constant) and c.args[2].value == 0):
                 continue
